@@ -51,6 +51,12 @@ impl GuardBuf {
             GuardBuf { map, map_len, data, len }
         }
     }
+    /// A window into another GuardBuf's data (no mapping of its own: the parent must outlive it).
+    /// Used to hand out two ADJACENT buffers carved from one mapping.
+    pub fn view(parent: &GuardBuf, off: usize, len: usize) -> GuardBuf {
+        assert!(off + len <= parent.len);
+        GuardBuf { map: std::ptr::null_mut(), map_len: 0, data: unsafe { parent.data.add(off) }, len }
+    }
     pub fn addr(&self) -> u64 {
         self.data as u64
     }
@@ -74,6 +80,9 @@ impl GuardBuf {
     }
     /// the accessible bytes around the data (between the guards) that are not data: canaries
     pub fn canary_ok(&self) -> bool {
+        if self.map.is_null() {
+            return true;
+        }
         unsafe {
             let lo = self.map.add(PAGE);
             let hi = self.map.add(self.map_len - PAGE);
@@ -88,6 +97,9 @@ impl GuardBuf {
         true
     }
     pub fn reset_canary(&self) {
+        if self.map.is_null() {
+            return;
+        }
         unsafe {
             let lo = self.map.add(PAGE);
             let hi = self.map.add(self.map_len - PAGE);
@@ -102,6 +114,9 @@ impl GuardBuf {
     }
     /// the whole accessible span between the two guard pages (data + canaries)
     pub fn span(&self) -> (u64, usize) {
+        if self.map.is_null() {
+            return (self.data as u64, self.len);
+        }
         (self.map as u64 + PAGE as u64, self.map_len - 2 * PAGE)
     }
     pub fn span_bytes(&self) -> Vec<u8> {
@@ -129,6 +144,9 @@ impl GuardBuf {
 
 impl Drop for GuardBuf {
     fn drop(&mut self) {
+        if self.map.is_null() {
+            return;
+        }
         unsafe {
             #[cfg(not(miri))]
             libc::munmap(self.map as *mut _, self.map_len);
